@@ -863,7 +863,11 @@ class Mask(Node):
     def ref(self, env, path, args):
         flag = bool(np.asarray(args[0]))
         if flag:
-            return RefMask(self.inner.ref(env, path, tuple(args[1:])), True)
+            r = self.inner.ref(env, path, tuple(args[1:]))
+            if isinstance(r, RefMask):
+                # a mask of a masked value is one mask whose flag is the conjunction (Mask.build)
+                return RefMask(r.value, np.logical_and(np.asarray(r.flag), True))
+            return RefMask(r, True)
         return RefMask(None, False)
 
     def sites(self, prefix=()):
